@@ -3,7 +3,7 @@ PID = "C08"
 LEAN_MODULE = "Hw.Props.C08"
 NS = "Hw.Props.C08."
 THEOREMS = [NS + t for t in """C08_consts C08_einval_unchanged C08_einval_cases C08_plan C08_sets_root C08_minus_compl_is_inter
-C08_sets_object C08_sets_exact C08_survivors C08_survivors_sets C08_removal_rule C08_pu_rule C08_numa_rule C08_root_kept C08_wf_sets C08_specials C08_specials_local C08_merge_decision C08_merge_exact C08_merge_breaks_complete_sets_reachable C08_repeat
+C08_sets_object C08_sets_exact C08_survivors C08_survivors_sets C08_removal_rule C08_pu_rule C08_numa_rule C08_root_kept C08_wf_sets C08_specials C08_specials_local C08_merge_decision C08_merge_exact C08_merge_preserves_setsok C08_wf_sets_whole C08_sets_exact_whole C08_repeat C08_repeat_exact
 C08_reorder_without_removal_reachable""".split()]
 CHECK_MODULES = ["Hw.Props.C08"]
 TRUSTED = ["hwloc_bitmap_not / andnot / intersects / isincluded / iszero / set / compare_first enter the model through their "
@@ -11,14 +11,11 @@ TRUSTED = ["hwloc_bitmap_not / andnot / intersects / isincluded / iszero / set /
            "harness/dump.h + lean/Driver/Topo.lean + buildTree in lean/Driver/Restrict.lean: the BEFORE dump is turned into the "
            "four-list tree the model starts from (objects in DFS order, children lists in list order)",
            "tools/gen_restrict.py (constants printed by the harness compiled against the real headers and topology.c)"]
-ASSUMPTIONS = ["exactness theorems (C08_sets_root, C08_sets_object) assume set ⊆ complete set on the object (C01 clause "
-               "set-in-complete); the driver evaluates the corresponding executable check okT on every BEFORE dump",
-               "malloc never fails (the ENOMEM / re-init path of hwloc_topology_restrict is not modelled)",
-               "finding merge-complete-sets: on calls where the model predicts that level merging (parent replaced by its single child) "
-               "breaks SetsOK, the C01 clause set-in-parent is not judged on the AFTER dump unless VERIF_C08_INCLUDE_MERGE_SETS_DEFECT=1 "
-               "(everything else is judged)",
-               "reorder defect: every call is judged by default; VERIF_C08_EXCLUDE_REORDER_DEFECT=1 (for hwloc trees without fix 5facd58 only) "
-               "stops judging disagreeing calls of the class 'successful restrict that removes no object but reorders a children list'"]
+ASSUMPTIONS = ["exactness theorems (C08_sets_root, C08_sets_exact, C08_sets_exact_whole, C08_repeat_exact) assume SetsOK (okT: set "
+               "inside complete set, complete sets of normal/memory children inside the parent's, no sets on I/O and Misc objects: C01 "
+               "clauses) on the initial topology only (it is proved to be preserved by every call); the driver evaluates okT on every "
+               "well-formed BEFORE dump",
+               "malloc never fails (the ENOMEM / re-init path of hwloc_topology_restrict is not modelled)"]
 MODELLED = ("modelled: hwloc_topology_restrict flag validation, pre-checks, dropped sets incl. CPU-less/memory-less detection, "
             "restrict_object_by_cpuset/_by_nodeset, unlink_and_free_single_object (childless case), hwloc__reorder_children, "
             "hwloc_connect_levels, hwloc_filter_levels_keep_structure (level merging is modelled, the comparison is exact, not modulo); "
